@@ -478,3 +478,20 @@ def run(ctx) -> None:  # noqa: F811
                   f"`{_nt(r.ast)[:40]}` can be reached without passing the base-tilt test: on that path (tilt axes "
                   "present) a non-zero scalar base tilt is ignored", key_detail="dominance")
     _inner_run_c39(ctx)
+
+
+# ---- added after the seeded change C39-r3seed2: x / y components are not crossed when tilts accumulate
+_inner_run_c39b = run
+
+
+def run(ctx) -> None:  # noqa: F811
+    from ..rules import xypair
+
+    ctx.rule("R-XYPAIR", xypair.__doc__.split("\n\n", 1)[1] + "  Applied to every function of abtem/tilt.py and to the "
+             "base-tilt handling of the propagator: the accumulated base tilt of the waves is what the propagator "
+             "shifts by, component-wise")
+    mod = ctx.repo.modules["abtem.tilt"]
+    fs = list(mod.functions.values()) + [f for c in mod.classes.values() for defs in c.methods.values() for f in defs]
+    n = sum(xypair.check_function(ctx, "R-XYPAIR", f) for f in fs)
+    ctx.require(n >= 2, f"R-XYPAIR judged only {n} axis-tagged stores in abtem/tilt.py")
+    _inner_run_c39b(ctx)
